@@ -195,6 +195,36 @@ pub fn gen(tier: &str, seed: u64, out: &mut dyn FnMut(Value)) {
             out(json!({"op": "scenario", "rules": [r.to_json(&mut rng)], "events": evj3, "tag": "prefix selection, names beyond identifiers", "nt": true}));
         }
     }
+    // names that differ only by leading zeros or digit grouping are different operands (`$h1`, `$h01`, `$h001`), and the
+    // order operands are visited in is the plain text order of their names
+    {
+        let names5: [(&str, &str); 6] = [("$h1", "f0"), ("$h01", "f1"), ("$h001", "f2"), ("$h10", "f3"), ("$h2", "f4"), ("$h1_0", "f5")];
+        let ops5: Vec<(String, Operand)> = names5.iter().map(|(n, f)| (n.to_string(), Operand::Test { segs: vec![f.to_string()], op: 0, lit: Lit::sq("1") })).collect();
+        let events5: Vec<DynEvent> = (0..(1u32 << 6))
+            .map(|m| DynEvent {
+                source: "s".into(),
+                id: 1,
+                fields: (0..6).map(|i| (vec![names5[i].1.to_string()], gene::FieldValue::String(if m & (1 << i) != 0 { "1".into() } else { "0".into() }))).collect(),
+            })
+            .collect();
+        let evj5: Vec<Value> = events5.iter().map(event_to_json).collect();
+        let mut fs: Vec<Form> = vec![];
+        for g in [None, Some("$h"), Some("$h1"), Some("$h0"), Some("$h01"), Some("$h00")] {
+            let g = g.map(|x| x.to_string());
+            fs.extend([Form::All(g.clone()), Form::Any(g.clone()), Form::NoneOf(g.clone())]);
+            for n in [1u64, 2, 3, 5, 6] {
+                fs.push(Form::N(n, g.clone()));
+            }
+        }
+        for (a, b) in [("$h1", "$h01"), ("$h01", "$h001"), ("$h10", "$h1_0"), ("$h2", "$h10")] {
+            fs.push(Form::And(Box::new(Form::V(a.into())), Box::new(Form::Not(Box::new(Form::V(b.into()))))));
+            fs.push(Form::And(Box::new(Form::V(b.into())), Box::new(Form::Not(Box::new(Form::V(a.into()))))));
+        }
+        for f in with_neg(fs) {
+            let r = SRule { name: "r".into(), ops: ops5.clone(), cond: Some(f.clone()), ..Default::default() };
+            out(json!({"op": "scenario", "rules": [r.to_json(&mut rng)], "events": evj5, "tag": "names differing by leading zeros", "nt": true}));
+        }
+    }
     // operand names and prefixes that contain the grammar's own words: `of`, `them`, `all`, `any`, `none`, `not`, `and`, `or`
     {
         let names4: [(&str, &str); 8] = [("$office", "f0"), ("$prof_1", "f1"), ("$of", "f2"), ("$them", "f3"), ("$microsoft", "f4"), ("$notand", "f5"), ("$orall", "f6"), ("$anynone", "f7")];
